@@ -229,11 +229,12 @@ def search(acc: Acc, tier, shard, nshards):
         doc = model.Gen(ch, aprof).document()
         text = render.render(doc).text
         root = doc[0]["t"]
+        pos = ch.bool()
         try:
-            d = W.loads(text)
+            d = W.loads(text, position=pos)
         except Exception as e:
             return [Discrepancy(f"load:{type(e).__name__}", f"document rejected by loads: {e!s:.120}", {"text": text})]
-        case = {"text": text, "root": root, "arbitrary": True}
+        case = {"text": text, "root": root, "arbitrary": True, "position": pos}
         try:
             msgs = validate_any(d, root)
         except Exception as e:
@@ -251,8 +252,12 @@ def search(acc: Acc, tier, shard, nshards):
 def replay(case):
     W = env.Workers.get()
     if case.get("arbitrary"):
-        d = W.loads(case["text"])
-        got, exp = names_of(validate_any(d, case["root"])), expected_names(d, case["root"], None)
+        d = W.loads(case["text"], position=case.get("position", False))
+        try:
+            got = names_of(validate_any(d, case["root"]))
+        except Exception as e:
+            return [Discrepancy(f"raises:{type(e).__name__}:arbitrary", f"validate raised {type(e).__name__}: {e!s:.100}", case)]
+        exp = expected_names(d, case["root"], None)
         return [Discrepancy("verdict_arbitrary", f"{got} vs {exp}", case)] if got != exp else []
     if "doc" in case and case.get("dict_api"):
         d = via_dict_api(case["doc"])
